@@ -20,7 +20,8 @@ class Mon(c15.Mon):
         out = []
         if r.uafter is None or r.ubefore is None:
             return out
-        N = self.N
+        N = self.N = world.cfg["blur"]          # the interval configured for the running service
+        self.blur = N
         t = r.t
         # true arrival instants of what is being retired in this step (own log, before C15's bookkeeping pops it)
         true_mb = {k: min(v["arr"].values()) for k, v in self.mb_arr.items() if v["arr"]}
@@ -105,12 +106,19 @@ def scenarios(tier):
                     fam.append(("expire-3-crowded", [(3.25, [A, ("claim", 0, "1")]), (5.75, [B, ("claim", 1, "1")]),
                                                      (6.5, [C, ("claim", 2, "1")])]))
                     fam.append(("resent-close", [(3.25, [A, ("close", 0, "zz", "lonely")])]))
+                    # what a crash between the two commits of a first claim leaves: a mailbox without sides, then expiry
+                    fam.append(("expire-mailbox-without-sides", [(3.25, [("inject_orphan_mailbox", X, "orphan")])]))
                     if storage == "file":
                         fam = [("restart-then-expire-1", [(3.25, [A, ("claim", 0, "1")]), (8.0, [("restart",)])]),
                                ("restart-then-expire-3", [(3.25, [A, ("open", 0, "m")]), (5.75, [B, ("open", 1, "m")]),
                                                           (6.5, [C, ("open", 2, "m")]), (8.0, [("restart",)])]),
                                ("restart-then-release", [(3.25, [A, ("claim", 0, "1")]), (8.0, [("restart",)]),
-                                                         (9.0, [("cbind", 5, X, "A"), ("release", 5, "1")])])]
+                                                         (9.0, [("cbind", 5, X, "A"), ("release", 5, "1")])]),
+                               # the operator restarts with a different interval on the same usage database
+                               ("restart-with-other-interval", [(3.25, [A, ("claim", 0, "1")]), (5.0, [B, ("open", 1, "m")]),
+                                                                (8.0, [("restart", {"blur": N * 60 if N < 3600 else 60})]),
+                                                                (9.0, [("cbind", 5, X, "A", ("py", "2")), ("release", 5, "1"),
+                                                                       ("cbind", 6, X, "B"), ("close", 6, "m", "happy")])])]
                     for label, tl in fam:
                         out.append(scen.Scenario(cfg, tl, E + 2 * P + 1.0, label="N%d-r%s-%s" % (N, res, label)))
     return out
